@@ -326,18 +326,38 @@ func execAlg[E any](c algCase, se setElem[E]) (res core.Result) {
 		res.Classes = append(res.Classes, fmt.Sprintf("operands-with-a-past-%d", c.Hist))
 	}
 	probe := se.val(c.Probe % se.ncodes)
-	R.AddValue(probe)
-	if len(got) > 0 {
-		R.RemoveValue(got[0])
+	// how the two sides are changed varies with the case: single values, everything at once, in bulk
+	mut := (len(a)*3 + len(b) + c.Probe) % 4
+	for _, k := range a {
+		mut = (mut + k) % 4
+	}
+	res.Classes = append(res.Classes, fmt.Sprintf("mutation-%d", mut))
+	switch mut {
+	case 1:
+		R.RemoveAll()
+	case 3:
+		R.AddValues(col.List[E](lib.Notation()).MakeFromArray([]E{probe}))
+		if len(got) > 0 {
+			R.RemoveValues(col.List[E](lib.Notation()).MakeFromArray(got[:1]))
+		}
+	default:
+		R.AddValue(probe)
+		if len(got) > 0 {
+			R.RemoveValue(got[0])
+		}
 	}
 	if !sameArr(A.AsArray(), beforeA) || !sameArr(B.AsArray(), beforeB) {
 		res.Violation = core.Violate("C15/"+c.Op+"/result-aliases-operand", "changing the result of %s changed an operand: first now %v, second now %v", desc, A.AsArray(), B.AsArray())
 		return res
 	}
 	afterR := R.AsArray()
-	A.AddValue(probe)
-	if len(beforeA) > 0 {
-		A.RemoveValue(beforeA[len(beforeA)-1])
+	if mut == 2 {
+		A.RemoveAll()
+	} else {
+		A.AddValue(probe)
+		if len(beforeA) > 0 {
+			A.RemoveValue(beforeA[len(beforeA)-1])
+		}
 	}
 	if !c.Alias {
 		B.RemoveAll()
